@@ -272,6 +272,32 @@ theorem encode_ok (info : Info) (rise run : Int) (ws : List Int) (es : List Rect
     obtain ⟨v, hv⟩ := minLsbLoop_ok l es true 0 (by omega)
     simp [encode, derive, hv, hlen, hll]
 
+/-! ## `(*Font).makeHmtx` (the shape the whole-font property C01 cites) -/
+
+/-- write.go `makeHmtx`: `hmtx.Info{Widths, GlyphExtents: f.GlyphBBoxes(), Ascent, Descent, LineGap,
+CaretAngle}` — no explicit bearings, caret offset 0; `(rise, run)` = `fromAngle(CaretAngle)` -/
+def makeHmtxModel (ws : List Int) (es : List Rect) (asc desc gap rise run : Int) :
+    Outcome (Bytes × Option Bytes) :=
+  encode ⟨some ws, some es, none, asc, desc, gap, 0⟩ rise run
+
+theorem makeHmtx_roundtrip (ws : List Int) (es : List Rect) (asc desc gap rise run : Int)
+    (hne : ws ≠ []) (hn : ws.length < 65536) (hlen : es.length = ws.length)
+    (hw : ∀ w ∈ ws, I16 w) (he : ∀ e ∈ es, I16 e.llx)
+    (ha : I16 asc) (hd : I16 desc) (hg : I16 gap) (hr : I16 rise) (hu : I16 run) :
+    ∃ hhea hmtx d, makeHmtxModel ws es asc desc gap rise run = .ok (hhea, some hmtx) ∧
+      decode hhea (some hmtx) = .ok d ∧ d.widths = ws ∧ d.ascent = asc ∧ d.descent = desc ∧
+      d.lineGap = gap ∧ d.lsb = es.map (·.llx) ∧ d.caretOffset = 0 ∧ d.rise = rise ∧ d.run = run := by
+  obtain ⟨hb, m, hok⟩ := encode_ok ⟨some ws, some es, none, asc, desc, gap, 0⟩ rise run ws es rfl rfl hlen
+    (by intro l h; cases h)
+  have hl : ∀ l ∈ es.map (·.llx), I16 l := by
+    intro l hl
+    obtain ⟨e, hee, rfl⟩ := List.mem_map.1 hl
+    exact he e hee
+  obtain ⟨m', hm', _, hdec⟩ := encode_decode ⟨some ws, some es, none, asc, desc, gap, 0⟩ rise run ws
+    (es.map (·.llx)) rfl rfl hne hn hw hl ha hd hg hr hu (by unfold I16; simp only; omega) hb (some m) hok
+  cases hm'
+  exact ⟨hb, m, _, hok, hdec, rfl, rfl, rfl, rfl, rfl, rfl, rfl, rfl⟩
+
 /-! ## maxp -/
 
 theorem range13 : List.range 13 = [0, 1, 2, 3, 4, 5, 6, 7, 8, 9, 10, 11, 12] := by decide
